@@ -5,7 +5,8 @@
 From Coq Require Import NArith ZArith List Bool Lia ZifyBool ZifyN Permutation.
 From Chess Require Import base.Bits base.Types base.BitBoard geom.Geometry model.Board model.Fen model.MoveGen model.Apply model.Search spec.Rules.
 From Chess Require Import spec.IterSpec proofs.IterFacts proofs.CoreFacts proofs.HashFacts proofs.InvFacts proofs.LegalDefs.
-From Chess Require Import proofs.SafeFacts proofs.BuilderFacts proofs.ValidFacts proofs.SearchFacts proofs.StatusFacts proofs.Reachable.
+From Chess Require proofs.SiteFacts.
+From Chess Require Import proofs.SafeFacts proofs.BuilderFacts proofs.ValidFacts proofs.SearchFacts proofs.StatusFacts proofs.Reachable proofs.InsufFacts.
 Import ListNotations.
 Local Open Scope N_scope.
 
@@ -143,6 +144,79 @@ Proof.
   apply (is_legal_exact_reachable root m R). exact Hl.
 Qed.
 
+
+(* C12, the finding half over the rules: if the rules give a mating move and the first pass completes, the search returns
+   a (rules-)mating move with the mover's mate-in-one score.  No side condition about captures: a position with
+   insufficient material is never checkmate (InsufFacts.insufficient_never_mate). *)
+Theorem search_finds_mate1_rules : forall k tf passes fuel root sc best st' m, Reachable root ->
+  b_half root < 65535 -> b_full root < 65535 ->
+  In m (legal_moves (Board.abs root)) -> is_mate (make (Board.abs root) m) = true ->
+  pass k tf (fuel + N.to_nat 0) root 0 None {| s_polls := 0; s_evals := 0 |} = PassDone sc best st' ->
+  exists m', search k tf (S passes) fuel root = (Some m', mate1 (b_turn root), 0, false)
+             /\ In m' (legal_moves (Board.abs root)) /\ is_mate (make (Board.abs root) m') = true.
+Proof.
+  intros k tf passes fuel root sc best st' m R Hh Hf Hl Hm Hp.
+  pose proof (Reachable_Good root R) as G.
+  assert (In m (legals root)) as Hin by (apply (proj2 (movegen_exact_reachable root R) m); exact Hl).
+  assert (is_legal root m = true) as Hil by (apply is_legal_iff; exact Hin).
+  assert (Reachable (apply root m)) as R' by (apply RB_move; assumption).
+  rewrite <- (apply_exact_reachable root m R Hh Hf Hil) in Hm.
+  destruct (proj2 (mate_reachable _ R') Hm) as [He Hc].
+  pose proof (mating_move_mates_now_good k tf root m G (legal_gen_move root m Hil) He Hc) as Hmates.
+  destruct (search_finds_mate1_all k tf passes fuel root sc best st' m Hin Hmates Hp) as (m' & E & He' & Hc').
+  exists m'. split; [exact E|].
+  pose proof (search_move_legal_all _ _ _ _ _ _ _ _ _ E) as Hin'.
+  assert (is_legal root m' = true) as Hil' by (apply is_legal_iff; exact Hin').
+  split; [exact (proj1 (proj2 (movegen_exact_reachable root R) m') Hin')|].
+  rewrite <- (apply_exact_reachable root m' R Hh Hf Hil').
+  apply (mate_reachable _ (RB_move root m' R Hil')). split; assumption.
+Qed.
+
+Print Assumptions search_finds_mate1_rules.
+
+(* ------------------------------------------------------------------ *)
+(** * C07: the premises of the site lemmas hold of every reachable board *)
+
+Lemma Part_site : forall b, HashFacts.Part b -> SiteFacts.Part b.
+Proof.
+  intros b P. constructor.
+  - exact (part_wf_colors b P White).
+  - exact (part_wf_colors b P Black).
+  - exact (part_wf_pieces b P Pawn).
+  - exact (part_wf_pieces b P Knight).
+  - exact (part_wf_pieces b P Bishop).
+  - exact (part_wf_pieces b P Rook).
+  - exact (part_wf_pieces b P Queen).
+  - exact (part_wf_pieces b P King).
+  - exact (part_wf_pinned b P).
+  - exact (part_wf_checkers b P).
+  - exact (part_colors_disjoint b P).
+  - exact (part_pieces_disjoint b P).
+  - exact (part_cover b P).
+Qed.
+
+(* the fixed-capacity move list (18 entries) never overflows, whatever the mask *)
+Theorem capacity_reachable : forall b mask, Reachable b -> (length (collect_moves b mask) <= 18)%nat.
+Proof.
+  intros b mask R. pose proof (Reachable_Good b R) as G.
+  apply SiteFacts.collect_moves_capacity_has_kings.
+  - exact (Part_site b (inv_part b (good_inv b G))).
+  - exact (good_has_kings b G).
+  - destruct (Reachable_men b R) as [Hw Hb]. destruct (b_turn b); assumption.
+Qed.
+
+(* a king is always present when its square is requested *)
+Theorem king_present_reachable : forall b c, Reachable b ->
+  king_sq b c < 64 /\ mem (colors b c) (king_sq b c) = true /\ mem (b_king b) (king_sq b c) = true.
+Proof.
+  intros b c R. pose proof (Reachable_Good b R) as G.
+  apply SiteFacts.king_sq_valid_has_kings.
+  - exact (part_wf_colors b (inv_part b (good_inv b G)) c).
+  - exact (good_has_kings b G).
+Qed.
+
+Print Assumptions capacity_reachable.
+Print Assumptions king_present_reachable.
 Print Assumptions reachable_closure.
 Print Assumptions is_legal_rules_reachable.
 Print Assumptions search_move_legal_rules.
